@@ -130,6 +130,11 @@ def probe_refused_mkcol(seed, limit):
         ("MKCOL", {"Content-Type": "text/xml"}, b"<mkcol xmlns='DAV:'><bogus/></mkcol>"),
         ("MKCOL", {"Content-Type": "text/xml"}, b"<mkcol xmlns='DAV:'><set><notprop/></set></mkcol>"),
         ("MKCALENDAR", {"Content-Type": "text/xml"}, b"<C:mkcalendar xmlns='DAV:' xmlns:C='urn:ietf:params:xml:ns:caldav'><bogus/></C:mkcalendar>"),
+        # a <set> with no / two children, an empty mkcalendar body
+        ("MKCOL", {"Content-Type": "text/xml"}, b"<mkcol xmlns='DAV:'><set/></mkcol>"),
+        ("MKCOL", {"Content-Type": "text/xml"}, b"<mkcol xmlns='DAV:'><set><prop/><prop/></set></mkcol>"),
+        ("MKCALENDAR", {"Content-Type": "text/xml"}, b"<C:mkcalendar xmlns='DAV:' xmlns:C='urn:ietf:params:xml:ns:caldav'><set/></C:mkcalendar>"),
+        ("MKCALENDAR", {"Content-Type": "text/xml"}, b"<C:mkcalendar xmlns='DAV:' xmlns:C='urn:ietf:params:xml:ns:caldav'/>"),
     ]
     known = known_probe_ids()
     for ci, (method, hdr, body) in enumerate(cases):
@@ -368,7 +373,7 @@ class Http:
         quick = req.get("tier", "quick") == "quick"
         tried = {}
         for g in groups_for(req.get("function")):
-            limit = {"traversal": 60 if quick else 600, "refused_mkcol": 10, "model": 40 if quick else 400, "post_location": 4}[g]
+            limit = {"traversal": 60 if quick else 600, "refused_mkcol": 11, "model": 40 if quick else 400, "post_location": 4}[g]
             bad = GROUPS[g](seed, limit)
             tried[g] = limit
             if bad:
